@@ -1,2 +1,301 @@
-//! Harnesses for property C26 (see /verif/properties.jsonl).
+//! Harnesses for property C26 (server cookies: round trip, rotation window, tamper evidence).
+//! Code under test: `KeySet::{encode_cookie, decode_cookie}`, `KeySetProvider::rotate`.
+//! The AES-SIV primitive of the cookie keys is the ideal-AEAD model of `common.rs`.
+use crate::common::*;
 use crate::stubs;
+use std::sync::Arc;
+
+// ------------------------------------------------------------------ round trip
+crate::ks_harness! {
+    #[kani::unwind(66)]
+    fn c26_roundtrip_256() {
+        symbolic_aead(MODE_EXPECT_OK);
+        let kk: [u8; 64] = kani::any();
+        let off: u32 = kani::any();
+        let s2c: [u8; 32] = kani::any();
+        let c2s: [u8; 32] = kani::any();
+        let ks = kh::keyset_from_parts(vec![key512(kk)], off, 0);
+        let c = cookie256(s2c, c2s);
+        let enc = kh::keyset_encode_cookie(&ks, &c);
+        match kh::keyset_decode_cookie(&ks, &enc) {
+            Ok(d) => {
+                let same = same_cookie(&d, 15, &s2c, &c2s);
+                std::mem::forget(d);
+                assert!(same, "decode(encode(x)) gives back algorithm and both keys (AES-SIV-CMAC-256)");
+                kani::cover!(s2c[0] != c2s[0] && off == u32::MAX, "cookie decoded (id offset at the wrap point)");
+            }
+            Err(_) => assert!(false, "a cookie just issued must decode"),
+        }
+        std::mem::forget(c);
+        std::mem::forget(ks);
+    }
+}
+
+crate::ks_harness! {
+    #[kani::unwind(66)]
+    fn c26_roundtrip_512() {
+        symbolic_aead(MODE_EXPECT_OK);
+        let kk: [u8; 64] = kani::any();
+        let off: u32 = kani::any();
+        let s2c: [u8; 64] = kani::any();
+        let c2s: [u8; 64] = kani::any();
+        let ks = kh::keyset_from_parts(vec![key512(kk)], off, 0);
+        let c = cookie512(s2c, c2s);
+        let enc = kh::keyset_encode_cookie(&ks, &c);
+        match kh::keyset_decode_cookie(&ks, &enc) {
+            Ok(d) => {
+                let same = same_cookie(&d, 17, &s2c, &c2s);
+                std::mem::forget(d);
+                assert!(same, "decode(encode(x)) gives back algorithm and both keys (AES-SIV-CMAC-512)");
+                kani::cover!(s2c[63] != c2s[63], "cookie decoded");
+            }
+            Err(_) => assert!(false, "a cookie just issued must decode"),
+        }
+        std::mem::forget(c);
+        std::mem::forget(ks);
+    }
+}
+
+// ------------------------------------------------------------------ rotation window
+/// Number of rotations explored.
+const R: usize = 5;
+
+/// `KeySetProvider` with `h` stale keys and an arbitrary id offset; `R` rotations; the key set
+/// published after each rotation is kept (that is what the daemon hands to its tasks:
+/// `Arc<KeySet>` snapshots). A cookie issued under snapshot `i` (symbolic) is decoded under
+/// snapshot `j` (symbolic): it must give back the same contents iff `i <= j <= i + h`.
+fn rotate_body(h: usize) {
+    symbolic_aead(MODE_EXPECT_OK);
+    let keys = symbolic_keys(R + 1);
+    let off: u32 = kani::any();
+    let i: usize = kani::any();
+    let j: usize = kani::any();
+    kani::assume(i <= R && j <= R);
+    let s2c: [u8; 32] = kani::any();
+    let c2s: [u8; 32] = kani::any();
+
+    // key 0 comes from the (stubbed) random source like every later key
+    let first = AesSivCmac512::new_random();
+    let mut provider = kh::provider_from_parts(kh::keyset_from_parts(vec![first], off, 0), h);
+    let mut snaps: [Option<Arc<KeySet>>; R + 1] = [None, None, None, None, None, None];
+    let mut n = 0;
+    while n <= R {
+        if n > 0 {
+            provider.rotate();
+        }
+        snaps[n] = Some(provider.get());
+        n += 1;
+    }
+
+    let c = cookie256(s2c, c2s);
+    let ks_i: &KeySet = snaps[i].as_ref().unwrap();
+    let enc = kh::keyset_encode_cookie(ks_i, &c);
+
+    // "New cookies are always issued under the newest key": the key the model saw is the one
+    // produced by the i-th draw of the random source (ghost check, model only).
+    if model_active() {
+        let used = unsafe { LOG[0].key };
+        assert!(eq_prefix(&used, &keys[i], 64), "cookie issued under the newest key");
+    }
+    // ... and its id is (id of the first key) + i, modulo 2^32
+    let id = u32::from_be_bytes([enc[0], enc[1], enc[2], enc[3]]);
+    assert!(id == off.wrapping_add(i as u32), "key ids advance by one per rotation, wrapping");
+
+    let ks_j: &KeySet = snaps[j].as_ref().unwrap();
+    let dec = kh::keyset_decode_cookie(ks_j, &enc);
+    let in_window = j >= i && j - i <= h;
+    match dec {
+        Ok(d) => {
+            let same = same_cookie(&d, 15, &s2c, &c2s);
+            std::mem::forget(d);
+            assert!(in_window, "a cookie whose key was rotated out (or not yet created) must not decode");
+            assert!(same, "inside the window the cookie decodes to the same algorithm and keys");
+            kani::cover!(j == i + h, "decoded at the last rotation of its window");
+            kani::cover!(i > 0 && id < off, "decoded across the u32 wrap of the key id");
+        }
+        Err(_) => {
+            assert!(!in_window, "a cookie inside the window must decode");
+            kani::cover!(j == i + h + 1, "rejected right after its window");
+            kani::cover!(j < i, "rejected: issued under a key this set does not have yet");
+        }
+    }
+    std::mem::forget(c);
+    std::mem::forget(snaps);
+    std::mem::forget(provider);
+}
+
+crate::ks_harness! {
+    #[kani::unwind(66)]
+    fn c26_rotate_h0() { rotate_body(0) }
+}
+crate::ks_harness! {
+    #[kani::unwind(66)]
+    fn c26_rotate_h1() { rotate_body(1) }
+}
+crate::ks_harness! {
+    #[kani::unwind(66)]
+    fn c26_rotate_h2() { rotate_body(2) }
+}
+crate::ks_harness! {
+    #[kani::unwind(66)]
+    fn c26_rotate_h3() { rotate_body(3) }
+}
+
+// ------------------------------------------------------------------ tamper evidence
+/// Two valid keys (ids off, off+1), cookie issued under the newer one, one byte inside the
+/// declared length XORed with a non-zero mask: decode must fail.
+fn tamper_body(alg512: bool) {
+    symbolic_aead(MODE_EXPECT_ERR);
+    let keys = symbolic_keys(2);
+    let off: u32 = kani::any();
+    let pos: usize = kani::any();
+    let mask: u8 = kani::any();
+    kani::assume(mask != 0);
+    let s2c: [u8; 64] = kani::any();
+    let c2s: [u8; 64] = kani::any();
+    let ks = kh::keyset_from_parts(vec![key512(keys[0]), key512(keys[1])], off, 1);
+    let c = if alg512 {
+        cookie512(s2c, c2s)
+    } else {
+        let mut a = [0u8; 32];
+        let mut b = [0u8; 32];
+        a.copy_from_slice(&s2c[..32]);
+        b.copy_from_slice(&c2s[..32]);
+        cookie256(a, b)
+    };
+    let mut enc = kh::keyset_encode_cookie(&ks, &c);
+    // declared length = 4 (key id) + 2 (length field) + 16 (nonce) + value of the length field
+    let declared = 6 + 16 + u16::from_be_bytes([enc[4], enc[5]]) as usize;
+    assert!(declared == enc.len(), "encoder emits exactly the declared length");
+    kani::assume(pos < declared);
+    enc[pos] ^= mask;
+    let dec = kh::keyset_decode_cookie(&ks, &enc);
+    let failed = dec.is_err();
+    std::mem::forget(dec);
+    assert!(failed, "a cookie modified inside its declared length must not decode");
+    kani::cover!(pos < 4 && (enc[3] ^ mask) == enc[3].wrapping_sub(1), "key id changed to the other valid key");
+    kani::cover!(pos == 5, "length field changed");
+    kani::cover!(pos >= 6 && pos < 22, "nonce changed");
+    kani::cover!(pos >= 22 && pos < declared - 16, "ciphertext body changed");
+    kani::cover!(pos >= declared - 16, "tag changed");
+    std::mem::forget(c);
+    std::mem::forget(ks);
+}
+
+crate::ks_harness! {
+    #[kani::unwind(66)]
+    fn c26_tamper() { tamper_body(false) }
+}
+crate::ks_harness! {
+    #[kani::unwind(66)]
+    fn c26_tamper_512() { tamper_body(true) }
+}
+
+/// A well-formed cookie whose key id is outside the current window never decodes.
+crate::ks_harness! {
+    #[kani::unwind(66)]
+    fn c26_unknown_id() {
+        symbolic_aead(MODE_EXPECT_ERR);
+        let keys = symbolic_keys(2);
+        let off: u32 = kani::any();
+        let id: u32 = kani::any();
+        let s2c: [u8; 32] = kani::any();
+        let c2s: [u8; 32] = kani::any();
+        let ks = kh::keyset_from_parts(vec![key512(keys[0]), key512(keys[1])], off, 1);
+        // valid ids are off and off+1 (mod 2^32)
+        kani::assume(id != off && id != off.wrapping_add(1));
+        let c = cookie256(s2c, c2s);
+        let mut enc = kh::keyset_encode_cookie(&ks, &c);
+        enc[0..4].copy_from_slice(&id.to_be_bytes());
+        let dec = kh::keyset_decode_cookie(&ks, &enc);
+        let failed = dec.is_err();
+        std::mem::forget(dec);
+        assert!(failed, "unknown key id must not decode");
+        assert!(unsafe { DECRYPT_CALLS } == 0 || !model_active(), "no key is even tried for an unknown id");
+        kani::cover!(id < off, "id below the window (wraps to a huge index)");
+        kani::cover!(id > off.wrapping_add(1) && off == u32::MAX, "window straddles the u32 wrap");
+        std::mem::forget(c);
+        std::mem::forget(ks);
+    }
+}
+
+/// A cookie issued by a different key set (same ids, different key material) never decodes.
+crate::ks_harness! {
+    #[kani::unwind(66)]
+    fn c26_foreign_key() {
+        symbolic_aead(MODE_EXPECT_ERR);
+        let keys = symbolic_keys(2);
+        let off: u32 = kani::any();
+        let s2c: [u8; 32] = kani::any();
+        let c2s: [u8; 32] = kani::any();
+        let ours = kh::keyset_from_parts(vec![key512(keys[0])], off, 0);
+        let theirs = kh::keyset_from_parts(vec![key512(keys[1])], off, 0);
+        let c = cookie256(s2c, c2s);
+        let enc = kh::keyset_encode_cookie(&theirs, &c);
+        let dec = kh::keyset_decode_cookie(&ours, &enc);
+        let failed = dec.is_err();
+        std::mem::forget(dec);
+        assert!(failed, "a cookie made with other key material must not decode");
+        kani::cover!(unsafe { DECRYPT_CALLS } == 1, "the key with the matching id was tried and rejected it");
+        std::mem::forget(c);
+        std::mem::forget(ours);
+        std::mem::forget(theirs);
+    }
+}
+
+/// Arbitrary input of up to 40 bytes (symbolic length): never a panic, never a cookie. The log
+/// holds one genuine cookie so that pieces of it may be replayed.
+crate::ks_harness! {
+    #[kani::unwind(66)]
+    fn c26_short() {
+        symbolic_aead(MODE_EXPECT_ERR);
+        let kk: [u8; 64] = kani::any();
+        let off: u32 = kani::any();
+        let buf: [u8; 40] = kani::any();
+        let n: usize = kani::any();
+        kani::assume(n <= 40);
+        let ks = kh::keyset_from_parts(vec![key512(kk)], off, 0);
+        let c = cookie256([1; 32], [2; 32]);
+        let genuine = kh::keyset_encode_cookie(&ks, &c);
+        let dec = kh::keyset_decode_cookie(&ks, &buf[..n]);
+        let failed = dec.is_err();
+        std::mem::forget(dec);
+        assert!(failed, "40 bytes cannot hold a cookie");
+        kani::cover!(n < 22, "shorter than id + length + nonce");
+        kani::cover!(n == 40 && unsafe { DECRYPT_CALLS } == 1, "well-formed framing reaches the key and is rejected");
+        kani::cover!(n == 40 && buf[4] == 0xff, "declared length longer than the input");
+        std::mem::forget(c);
+        std::mem::forget(ks);
+    }
+}
+
+crate::ks_harness! {
+    #[kani::unwind(66)]
+    fn probe_m1() {
+        symbolic_aead(MODE_EXPECT_OK);
+        let kk: [u8; 64] = kani::any();
+        let off: u32 = kani::any();
+        let s2c: [u8; 32] = kani::any();
+        let c2s: [u8; 32] = kani::any();
+        let ks = kh::keyset_from_parts(vec![key512(kk)], off, 0);
+        let c = cookie256(s2c, c2s);
+        let enc = kh::keyset_encode_cookie(&ks, &c);
+        let dec = kh::keyset_decode_cookie(&ks, &enc);
+        let ok = dec.is_ok();
+        std::mem::forget(dec);
+        assert!(ok);
+        std::mem::forget(c);
+        std::mem::forget(ks);
+    }
+}
+
+crate::ks_harness! {
+    #[kani::unwind(66)]
+    fn probe_m2() {
+        let s2c: [u8; 32] = kani::any();
+        let k = AesSivCmac256::try_from(&s2c[..]);
+        let ok = k.is_ok();
+        std::mem::forget(k);
+        assert!(ok);
+    }
+}
